@@ -14,6 +14,64 @@ import kernels
 from harness_acd import MockAccel, NpProxy
 
 
+class AndersonNp:
+    """numpy for skglm/utils/anderson.py with a dyadic stand-in for np.linalg.solve (mirrors mock_solve_z of Skel/CorrSolvers.v):
+    z_k = 1 if the k-th difference vector is zero else 2; LinAlgError when the first difference is zero"""
+    def __getattr__(self, k): return getattr(np, k)
+
+    class linalg:
+        LinAlgError = np.linalg.LinAlgError
+
+        @staticmethod
+        def solve(A, b_):
+            if A[0, 0] == 0:
+                raise np.linalg.LinAlgError("singular")
+            return np.array([1.0 if A[k, k] == 0 else 2.0 for k in range(len(b_))])
+
+
+def patched_anderson():
+    """context manager: the REAL AndersonAcceleration class with only np.linalg.solve replaced"""
+    import contextlib
+    import skglm.utils.anderson as an
+
+    @contextlib.contextmanager
+    def cm():
+        saved = an.np
+        an.np = AndersonNp()
+        try:
+            yield an.AndersonAcceleration
+        finally:
+            an.np = saved
+    return cm()
+
+
+def make_aa_cases(rng, n_cases):
+    cases = []
+    for k in range(n_cases):
+        K = rng.choice([1, 2, 3, 5])
+        dw, dx = rng.randint(1, 3), rng.randint(1, 3)
+        D = [j / 4 for j in range(-8, 9)]
+        calls = []
+        for c in range(rng.randint(1, 3 * (K + 2))):
+            if calls and rng.random() < 0.25:
+                calls.append(calls[-1])                       # repeated iterate: a zero difference vector
+            else:
+                calls.append(([rng.choice(D) for _ in range(dw)], [rng.choice(D) for _ in range(dx)]))
+        with patched_anderson() as AA:
+            acc = AA(K=K)
+            obs = []
+            for w, Xw in calls:
+                wo, xo, e = acc.extrapolate(np.array(w, dtype=float), np.array(Xw, dtype=float))
+                obs.append((list(map(float, wo)), list(map(float, xo)), bool(e)))
+        expr = f"aa_run {K} aa_init " + lst([f"({vq(w)}, {vq(x)})" for w, x in calls])
+        exp = lst([f"({vq(w)}, {vq(x)}, {b(e)})" for w, x, e in obs])
+        cases.append((f"aa#{k} K={K} calls={calls} -> {obs}", expr, "chk_aa", exp))
+    return cases
+
+
+AA_IMPORTS = ["Skel.AndersonCD", "Skel.Generic", "Skel.Anderson", "Skel.CorrSolvers"]
+
+
 def _pen_lambdas(name, fd):
     """Gallina closures (score, prox, value) of a generated separable penalty on QNum"""
     sig = kernels.gen_sig()
@@ -53,9 +111,10 @@ def run_real_gram(X, y, pen, cfg, w_init, as_sparse):
     import skglm.solvers.gram_cd as g
     from skglm.utils.jit_compilation import compiled_clone
     import warnings
-    saved = g.AndersonAcceleration
+    import skglm.utils.anderson as an
+    saved = an.np
     try:
-        g.AndersonAcceleration = MockAccel
+        an.np = AndersonNp()                        # the REAL AndersonAcceleration runs; only np.linalg.solve is replaced
         solver = g.GramCD(max_iter=cfg["max_iter"], use_acc=cfg["use_acc"], greedy_cd=cfg["greedy"], tol=cfg["tol"],
                           fit_intercept=False)
         Xs = sparse.csc_matrix(X) if as_sparse else np.asfortranarray(X)
@@ -70,7 +129,7 @@ def run_real_gram(X, y, pen, cfg, w_init, as_sparse):
             return dict(err=True, exc="non-finite w")
         return dict(err=False, w=list(map(float, w)), obj=list(map(float, objs)), stop=float(stop))
     finally:
-        g.AndersonAcceleration = saved
+        an.np = saved
 
 
 def make_gram_cases(rng, n):
@@ -86,7 +145,7 @@ def make_gram_cases(rng, n):
         # the exact run take the same decisions at stop_crit == 0
         exact = pname in ("L1", "WeightedL1", "IndicatorBox", "PositiveConstraint")
         use_acc = rng.random() < 0.6
-        cfg = dict(max_iter=rng.choice([4, 5, 7, 8, 9, 12] if use_acc and rng.random() < 0.7 else [0, 1, 2, 3, 5, 8]), use_acc=use_acc,
+        cfg = dict(max_iter=rng.choice([7, 8, 9, 14, 15] if use_acc and rng.random() < 0.7 else [0, 1, 2, 3, 5, 8]), use_acc=use_acc,
                    greedy=rng.random() < (0.15 if use_acc else 0.5),
                    tol=rng.choice(([0.0, 0.0] if exact else []) + [2 ** -30, 2 ** -30, 2 ** -12, 2 ** -4, 0.5]))
         w_init = None
@@ -98,7 +157,7 @@ def make_gram_cases(rng, n):
         obs = run_real_gram(X, y, pen, cfg, w_init, sp)
         score, prox, value = _pen_lambdas(pname, fd)
         wi = "None" if w_init is None else f"(Some {vq(w_init)})"
-        expr = (f"gram_case {mat(X)} {vq(y)} {cfg['max_iter']} {q(cfg['tol'])} {b(cfg['use_acc'])} {b(cfg['greedy'])} "
+        expr = (f"gram_case_aa {mat(X)} {vq(y)} {cfg['max_iter']} {q(cfg['tol'])} {b(cfg['use_acc'])} {b(cfg['greedy'])} "
                 f"{score} {prox} {value} {wi}")
         if obs["err"]:
             o = "{| or_err := true; or_w := []; or_obj := []; or_stop := XBad |}"
@@ -110,11 +169,11 @@ def make_gram_cases(rng, n):
         dist["acc"] += cfg["use_acc"]; dist["greedy"] += cfg["greedy"]; dist["warm"] += w_init is not None; dist["sparse"] += sp
         dist["penalties"][pname] = dist["penalties"].get(pname, 0) + 1
         label = f"gram#{k} pen={pname}{fd} cfg={cfg} sparse={sp} X={X.tolist()} y={y.tolist()} w_init={w_init} -> {obs}"
-        cases.append((label, expr, "chk_gram", o))
+        cases.append((label, expr, "chk_gram_aa", o))
     return cases, dist
 
 
-GRAM_IMPORTS = ["Gen.ProxFuncs", "Gen.PenSeparable", "Gen.KernGram", "Skel.AndersonCD", "Skel.Generic", "Skel.GramCD",
+GRAM_IMPORTS = ["Gen.ProxFuncs", "Gen.PenSeparable", "Gen.KernGram", "Skel.AndersonCD", "Skel.Generic", "Skel.GramCD", "Skel.Anderson",
                 "Skel.CorrSolvers"]
 
 
@@ -375,13 +434,13 @@ PN_IMPORTS = ["Skel.AndersonCD", "Skel.MockACD", "Skel.Generic", "Skel.ProxNewto
 BCD_IMPORTS = ["Skel.AndersonCD", "Skel.MockACD", "Skel.Generic", "Skel.GroupBCD", "Skel.CorrSolvers"]
 
 SOLVER_TARGETS = ["Skel/CorrSolvers.vo"]
-SOLVER_SOURCES = ["skglm/solvers/gram_cd.py", "skglm/solvers/group_bcd.py", "skglm/solvers/prox_newton.py", "skglm/solvers/fista.py"]
+SOLVER_SOURCES = ["skglm/solvers/gram_cd.py", "skglm/solvers/group_bcd.py", "skglm/solvers/prox_newton.py", "skglm/solvers/fista.py", "skglm/utils/anderson.py"]
 
 
 def solver_corr(tier, rng, tag):
     """all skeleton correspondences of this module; returns a dict to be merged by `merge_corr`"""
     import tvlib
-    n = 150 if tier == "quick" else 1500
+    n = 300 if tier == "quick" else 3000
     cases, dist = make_gram_cases(rng, n)
     r = tvlib.run_cases(cases, GRAM_IMPORTS, tag + "g", shard=10, jobs=16)
     nb = 300 if tier == "quick" else 2500
@@ -389,11 +448,13 @@ def solver_corr(tier, rng, tag):
     rb = tvlib.run_cases(bc, BCD_IMPORTS, tag + "b", shard=12, jobs=16)
     pc, pdist = make_pn_cases(rng, nb)
     rp = tvlib.run_cases(pc, PN_IMPORTS, tag + "p", shard=12, jobs=16)
+    ac = make_aa_cases(rng, 200 if tier == "quick" else 2000)
+    ra = tvlib.run_cases(ac, AA_IMPORTS, tag + "a", shard=25, jobs=16)
     fc, fdist = make_fista_cases(rng, 40 if tier == "quick" else 400)
     rf = tvlib.run_cases(fc, FISTA_IMPORTS, tag + "f", shard=6, jobs=16)
-    allc = cases + bc + pc + fc
-    return dict(cases=len(allc), bad=r["bad"] + rb["bad"] + rp["bad"] + rf["bad"],
-                errors=r["errors"] + rb["errors"] + rp["errors"] + rf["errors"],
+    allc = cases + bc + pc + fc + ac
+    return dict(cases=len(allc), bad=r["bad"] + rb["bad"] + rp["bad"] + rf["bad"] + ra["bad"],
+                errors=r["errors"] + rb["errors"] + rp["errors"] + rf["errors"] + ra["errors"],
                 distribution=dict(gramcd_end_to_end=dist, groupbcd_mock_traces=bdist, proxnewton_mock_traces=pdist, fista_end_to_end=fdist),
                 distinct_nontrivial=sum(1 for c in allc if "'obj': []" not in c[0] and "'err': True" not in c[0]),
                 samples=[dict(gramcd=cases[0][0][:500]), dict(groupbcd=bc[0][0][:500])])
@@ -410,12 +471,15 @@ def merge_corr(a, b_):
     return out
 
 
-if __name__ == "__main__" and len(__import__("sys").argv) > 3 and __import__("sys").argv[3] in ("bcd", "pn", "fista"):
+if __name__ == "__main__" and len(__import__("sys").argv) > 3 and __import__("sys").argv[3] in ("bcd", "pn", "fista", "aa"):
     import sys, tvlib
     rng = random.Random(int(sys.argv[1]))
     if sys.argv[3] == "pn":
         cases, dist = make_pn_cases(rng, int(sys.argv[2]))
         r = tvlib.run_cases(cases, PN_IMPORTS, "pn", shard=12, jobs=16)
+    elif sys.argv[3] == "aa":
+        cases, dist = make_aa_cases(rng, int(sys.argv[2])), {}
+        r = tvlib.run_cases(cases, AA_IMPORTS, "aa", shard=25, jobs=16)
     elif sys.argv[3] == "fista":
         cases, dist = make_fista_cases(rng, int(sys.argv[2]))
         r = tvlib.run_cases(cases, FISTA_IMPORTS, "fista", shard=8, jobs=16)
